@@ -236,6 +236,28 @@ let judge_line (line : string) =
              corr_full k oT
          | _ -> [z_of_int 99]) in
       report line (corr @ codes)
+  | ["i6"; d], [v; dpost] ->
+      bump opcount "Int64"; if v <> "err" then Hashtbl.replace nontrivial d ();
+      report line (judge_int64 (dec_req d) (if v = "err" then None else Some (z_of_big_dec v)) (dec_req dpost))
+  | ["sf"; x; e], [d] -> bump opcount "SetFinite"; Hashtbl.replace nontrivial (x ^ e) ();
+      report line (judge_set_finite (z_of_big_dec x) (z_of_dec_string e) (dec_req d))
+  | ["si"; x], [d] -> bump opcount "SetInt64"; Hashtbl.replace nontrivial x ();
+      report line (judge_set_finite (z_of_big_dec x) Z0 (dec_req d))
+  | ["nb"; v; e], [d] -> bump opcount "NewWithBigInt"; Hashtbl.replace nontrivial (v ^ e) ();
+      report line (judge_new_big (z_of_hex v) (z_of_dec_string e) (dec_req d))
+  | ["mf"; d; variant], [i; f; dpost] ->
+      bump opcount "Modf"; if i <> d then Hashtbl.replace nontrivial (d ^ variant) ();
+      report line (judge_modf (dec_req d) (dec_of_token i) (dec_of_token f) (dec_req dpost))
+  | ["f6"; d], bits :: refbits :: _ ->
+      bump opcount "Float64"; Hashtbl.replace nontrivial d ();
+      (* Float64 of a NaN decimal is outside C17's quantifier (finite decimals); strconv rejects "-NaN", "sNaN", payloads *)
+      let is_nan_dec = String.length d > 1 && (d.[0] = 'N' || d.[0] = 'S') in
+      report line (if bits = refbits || is_nan_dec then [] else [z_of_int 76])
+  | ["s6"; bits], [d; back; shorter] ->
+      bump opcount "SetFloat64"; Hashtbl.replace nontrivial bits ();
+      let isnan b = (String.length b = 16 && (String.sub b 0 3 = "7ff" || String.sub b 0 3 = "fff") && String.sub b 3 13 <> "0000000000000") in
+      ignore d;
+      report line ((if back = bits || (isnan bits && isnan back) then [] else [z_of_int 77]) @ (if shorter = "0" then [] else [z_of_int 78]))
   | "bi" :: _n :: steps, rhs ->
       bump opcount "BigIntProgram";
       let rec parse = function
